@@ -89,6 +89,10 @@ Fixpoint rs_case_branches (ft : list stmt) (sc : scopes) (first : bool) (brs : l
   end.
 End Branches.
 
+(* the operators an assignment statement may carry (anything else panics in intermediate.rs) *)
+Definition assign_op_ok (op : binop) : bool :=
+  match op with Nop | Add | Sub | Mul | Div => true | _ => false end.
+
 Definition param_scope (params : list (string * N * span * ty)) : list (N * bool) :=
   map (fun p => (snd (fst (fst p)), true)) params.
 
@@ -109,6 +113,7 @@ Fixpoint rs_expr (fuel : nat) (sc : scopes) (e : expr) {struct fuel} : option (l
     | EBlobAccess value _ _ => rse sc value
     | EIndex value index _ =>
         n1 <~ rse sc value ;; n2 <~ rse (add_new n1 sc) index ;; Some (n2 ++ n1)
+    | EBinOp Nop _ _ _ => None   (* never an expression operator *)
     | EBinOp And a b _ | EBinOp Or a b _ =>
         na <~ rse sc a ;;
         _ <~ rse ([] :: add_new na sc) b ;;
@@ -141,6 +146,7 @@ with rs_stmt (fuel : nat) (sc : scopes) (s : stmt) {struct fuel} : option (list 
     let rst := fun sc s => rs_stmt f sc s in
     match s with
     | SAssignment op target value _ =>
+        if negb (assign_op_ok op) then None else
         nt <~ match target with
               | ERead v _ => if hard_defined sc v then Some [] else None
               | EIndex value index _ =>
